@@ -39,6 +39,16 @@ def doc(ctx, opts):
     o = dict(nsym=2, form='bare', ws=' ', nl='\n', arr='[]', comment=None, cont=None, case=None, interleave=0, blank_lines=False,
              charlen='8', sub_names=False, value_sym=0)
     o.update(opts)
+
+    def choice(name, options):
+        """a layout choice made by the solver (concretised on demand): every option is explored"""
+        return options[int(ctx.int('choice_' + name, 0, len(options) - 1))] if hasattr(ctx, 'int') else options[ctx.pick(name)]
+    if o['nl'] == 'sym':
+        o['nl'] = choice('nl', ['\n', '\r\n'])
+    if o['ws'] == 'sym':
+        o['ws'] = choice('ws', [' ', '\t', ' \t '])
+    if o['arr'] == 'sym':
+        o['arr'] = choice('arr', ['[]', '<>'])
     ws, nl = o['ws'], o['nl']
     lb, rb = ('[', ']') if o['arr'] == '[]' else ('<', '>')
     excl = {'bare': BARE_EXCL, 'quoted': QUOTED_EXCL, 'braced': BRACED_EXCL}[o['form']]
@@ -80,7 +90,7 @@ def doc(ctx, opts):
         k = sym_chars(ctx, 'b', o['cont'])
         for t in k:
             ctx.add(z3.Or(t == 32, t == 9))
-        cont = S('\\', k, '\n')
+        cont = S('\\', k, nl)
     r1 = S(trow, ws, '1', ws, l1_text, ws, cont, 'ALPHA', ws, '{ab', ws, 'x}', ws, '{1.5 2.5}', tc)
     r2 = S(tname.lower(), ' 2 "q r" BETA {"" yy} {3.0 4.0}')
     s1 = S(oname, ' 5 ', 'w1')
@@ -148,17 +158,18 @@ def obligations(tier, seed):
         ('quoted', dict(form='quoted', nsym=n)),
         ('braced', dict(form='braced', nsym=n)),
         ('empty-quoted', dict(form='quoted', nsym=0)),
-        ('comments', dict(form='bare', nsym=1, comment=2)),
+        ('comments', dict(form='bare', nsym=1, comment=2, nl='sym')),
         ('quoted+comment', dict(form='quoted', nsym=2, comment=1)),
         ('tabs+blank-lines', dict(form='quoted', nsym=1, ws=' \t ', blank_lines=True)),
         ('crlf', dict(form='bare', nsym=1, nl='\r\n')),
-        ('continuation', dict(form='bare', nsym=1, cont=1)),
+        ('continuation', dict(form='bare', nsym=1, cont=1, nl='sym', ws='sym')),
+        ('continuation-quoted', dict(form='quoted', nsym=1, cont=2, nl='sym', arr='sym')),
         ('legacy-angle', dict(form='quoted', nsym=1, arr='<>')),
-        ('row-case', dict(form='bare', nsym=1, case=True)),
+        ('row-case', dict(form='bare', nsym=1, case=True, nl='sym', arr='sym')),
         ('interleave1', dict(form='bare', nsym=1, interleave=1)),
         ('interleave2', dict(form='quoted', nsym=1, interleave=2)),
         ('header-value', dict(form='bare', nsym=0, value_sym=2)),
-        ('char[]', dict(form='quoted', nsym=2, charlen='')),
+        ('char[]', dict(form='quoted', nsym=2, charlen='', arr='sym', ws='sym')),
         ('substring-names', dict(form='bare', nsym=1, sub_names=True)),
     ]
     obs = []
@@ -224,6 +235,9 @@ def _concrete_doc(opts, inp):
 
         def add(self, *a):
             pass
+
+        def pick(self, name):
+            return int(inp.get('choice_' + name, 0))
     o = dict(opts)
     case = o.pop('case', None)
     text, expected = me.doc(Ctx(), dict(o, case=None))
@@ -232,8 +246,8 @@ def _concrete_doc(opts, inp):
         tname = 'TAB' if not o.get('sub_names') else 'AB'
         new = ''.join(ch.upper() if inp.get('upper%d' % i, True) else ch.lower() for i, ch in enumerate(tname))
         # first data row of the first table starts with the table name at the beginning of a line
-        marker = '\n' + tname + o.get('ws', ' ')
-        text = text.replace(marker + '1', '\n' + new + o.get('ws', ' ') + '1', 1)
+        import re as _re
+        text = _re.sub(r'\n' + tname + r'([ \t]+1[ \t])', lambda m: '\n' + new + m.group(1), text, count=1)
 
     def plain(v):
         if isinstance(v, list):
